@@ -3,7 +3,7 @@
    The objects: Model/VSyntax.v (abstract syntax produced per text by py/vparse.py), Spec/C03.v (WF: the declarative
    meaning of "closed, legal design"; reserved = IEEE 1364-2005 Annex B), Model/VWf.v (the executable checker run by
    vm_compute on every emitted text), Model/VSem.v (elaborate). *)
-From V Require Import Model.VSyntax Model.VSem Spec.C03 Model.VWf Model.Naming Proofs.C03.Sound Proofs.C03.Elab Proofs.C03.Names Proofs.C03.Examples.
+From V Require Import Model.VSyntax Model.VSem Spec.C03 Model.VWf Model.Naming Proofs.C03.Sound Proofs.C03.Elab Proofs.C03.Names Proofs.C03.NamesFull Proofs.C03.Examples.
 Local Open Scope string_scope.
 
 (* the checker is sound for the specification: whatever text it accepts (with black-box list ext) is a closed, legal
@@ -39,6 +39,61 @@ Proof. exact names_injective. Qed.
 (* without the guard the claim is false: port `w_a` + local wire `a` are emitted under one name *)
 Theorem C03_names_refuted : exists kw ports locals, kw_ok kw /\ NoDup ports /\ NoDup locals /\ ~ NoDup (emitted_names kw ports locals).
 Proof. exact names_refuted. Qed.
+
+(* naming, the WHOLE name space of a module (Model/Naming.v emitted_names_full: implicit clock port `clk` if the scope has a
+   clocked descendant, ports through getPortName, local wires "w_"+n, one instance "i_"+n per non-inlined child), and
+   "reserved" = Spec.C03.reserved (IEEE 1364-2005 Annex B), not py4hw's list.  Guards: py4hw's list kw contains the IEEE list
+   and none of its entries starts with w_ / i_ / reserved_ (kw_ok_full); port, local-wire and instance names pairwise
+   distinct within their class; no PORT name starts with w_ / i_ / reserved_ (local-wire and instance names need no guard:
+   they are always prefixed); the clock name starts with none of the prefixes, is not a port name and is not in kw.
+   Then the emitted identifiers are pairwise distinct and none is in kw nor in the IEEE list. *)
+Theorem C03_names_injective : forall (kw : list string) (clk : option string) (ports locals insts : list string),
+  kw_ok_full kw -> incl reserved kw ->
+  NoDup ports -> NoDup locals -> NoDup insts ->
+  (forall p, In p ports -> no_gen_prefix p) ->
+  (forall c, clk = Some c -> no_gen_prefix c /\ ~ In c ports /\ ~ In c kw) ->
+  NoDup (emitted_names_full kw clk ports locals insts) /\
+  (forall x, In x (emitted_names_full kw clk ports locals insts) -> ~ In x kw /\ ~ In x reserved).
+Proof. exact names_injective_full. Qed.
+
+(* each guard is necessary (kw = the IEEE list, every OTHER guard in force):
+   port `i_x` + child instance `x` (known finding i-prefix-collision) *)
+Theorem C03_names_i_prefix_refuted : exists clk ports locals insts,
+  NoDup ports /\ NoDup locals /\ NoDup insts /\
+  (forall p, In p ports -> has_prefix "w_" p = false /\ has_prefix "reserved_" p = false) /\
+  (forall c, clk = Some c -> no_gen_prefix c /\ ~ In c ports /\ ~ In c reserved) /\
+  ~ NoDup (emitted_names_full reserved clk ports locals insts).
+Proof. exact names_full_refuted_i_prefix. Qed.
+
+(* a data port named like the implicit clock `clk` (known finding port-named-like-implicit-clock) *)
+Theorem C03_names_clock_port_refuted : exists clk ports locals insts,
+  NoDup ports /\ NoDup locals /\ NoDup insts /\
+  (forall p, In p ports -> no_gen_prefix p) /\
+  (forall c, clk = Some c -> no_gen_prefix c /\ ~ In c reserved) /\
+  ~ NoDup (emitted_names_full reserved clk ports locals insts).
+Proof. exact names_full_refuted_clock_port. Qed.
+
+(* ports `wire` and `reserved_wire` (known finding reserved-prefix-collision) *)
+Theorem C03_names_reserved_prefix_refuted : exists clk ports locals insts,
+  NoDup ports /\ NoDup locals /\ NoDup insts /\
+  (forall p, In p ports -> has_prefix "w_" p = false /\ has_prefix "i_" p = false) /\
+  (forall c, clk = Some c -> no_gen_prefix c /\ ~ In c ports /\ ~ In c reserved) /\
+  ~ NoDup (emitted_names_full reserved clk ports locals insts).
+Proof. exact names_full_refuted_reserved_prefix. Qed.
+
+(* the clock name is guarded too: a clock driver called `w_a` next to a local wire `a` *)
+Theorem C03_names_clock_prefix_refuted : exists clk ports locals insts,
+  NoDup ports /\ NoDup locals /\ NoDup insts /\
+  (forall p, In p ports -> no_gen_prefix p) /\
+  (forall c, clk = Some c -> ~ In c ports /\ ~ In c reserved) /\
+  ~ NoDup (emitted_names_full reserved clk ports locals insts).
+Proof. exact names_full_refuted_clock_prefix. Qed.
+
+(* `incl reserved kw` is necessary for the keyword clause: a list without `uwire` (py4hw before d778f58) emits that port unprefixed *)
+Theorem C03_names_kw_incomplete_refuted : exists kw ports,
+  kw_ok_full kw /\ NoDup ports /\ (forall p, In p ports -> no_gen_prefix p) /\
+  exists x, In x (emitted_names_full kw None ports [] []) /\ In x reserved.
+Proof. exact names_full_refuted_kw_incomplete. Qed.
 
 (* ---------------------------------------------------------------- non-vacuity and detection examples (designs in Proofs/C03/Examples.v) *)
 Example C03_example_accepted : wf_design [] ex_design = true.
@@ -81,9 +136,26 @@ Example C03_rejects_cycle :
   wf_report [] [ {| m_name := "A"; m_params := []; m_ports := []; m_items := [IInst "B" [] "i_b" []] |};
                  {| m_name := "B"; m_params := []; m_ports := []; m_items := [IInst "A" [] "i_a" []] |} ] = [("instantiation_cycle", "", "")].
 Proof. exact ex_rejects_cycle. Qed.
+(* the hypotheses of C03_names_injective hold for kw = the IEEE list, clock `clk`, ports a/wire/r/design, local wires t/a/wire,
+   instances add/a/wire/t; the emitted identifiers are then the twelve below *)
+Example C03_names_injective_guards :
+  kw_ok_full reserved /\ incl reserved reserved /\ NoDup ex_ports /\ NoDup ex_locals /\ NoDup ex_insts /\
+  (forall p, In p ex_ports -> no_gen_prefix p) /\
+  (forall c, Some "clk" = Some c -> no_gen_prefix c /\ ~ In c ex_ports /\ ~ In c reserved).
+Proof. exact ex_names_full_guards. Qed.
+Example C03_names_injective_value :
+  emitted_names_full reserved (Some "clk") ex_ports ex_locals ex_insts =
+  ["clk"; "a"; "reserved_wire"; "r"; "reserved_design"; "w_t"; "w_a"; "w_wire"; "i_add"; "i_a"; "i_wire"; "i_t"]%list.
+Proof. exact ex_names_full_value. Qed.
 
 Print Assumptions C03_wf_sound.
 Print Assumptions C03_elab_total.
 Print Assumptions C03_elab_checked.
 Print Assumptions C03_names_injective_partial.
 Print Assumptions C03_names_refuted.
+Print Assumptions C03_names_injective.
+Print Assumptions C03_names_i_prefix_refuted.
+Print Assumptions C03_names_clock_port_refuted.
+Print Assumptions C03_names_reserved_prefix_refuted.
+Print Assumptions C03_names_clock_prefix_refuted.
+Print Assumptions C03_names_kw_incomplete_refuted.
